@@ -486,6 +486,10 @@ pub mod rewrite {
     {
       return None;
     }
+    // Error-recovery ASTs contain placeholder expressions that the renamer cannot handle.
+    if state.get_errors(module_reference).iter().any(|e| e.is_syntax_error()) {
+      return None;
+    }
     let def_or_use_loc =
       match state_searcher_utils::search_at_pos(state, module_reference, position, false) {
         Some(location_cover::LocationCoverSearchResult::TypedName(loc, _, _)) => loc,
